@@ -435,6 +435,17 @@ func (s *levelsController) levelTargets() targets {
 	if t.baseLevel == 0 {
 		t.baseLevel = 1
 	}
+	// The base level must not lie below a level that holds data. It is derived from the size of the
+	// last level alone, so when the last level shrinks (deletes compacted away, DropPrefix) or is
+	// re-opened with a larger BaseLevelSize it can move below a non-empty level. L0 would then be
+	// compacted past that level, and a delete marker dropped at the base level (nothing overlaps
+	// below it) would bring back the older version still sitting above.
+	for i := 1; i < t.baseLevel; i++ {
+		if s.levels[i].getTotalSize() > 0 {
+			t.baseLevel = i
+			break
+		}
+	}
 	return t
 }
 
